@@ -675,7 +675,13 @@ impl IdlSqliteTransaction for IdlSqliteWriteTransaction {
         self.db_name
     }
 
+    #[cfg_attr(feature = "verif-hooks", track_caller)]
     fn get_conn(&self) -> Result<&Connection, OperationError> {
+        #[cfg(feature = "verif-hooks")]
+        crate::verif_hooks::c05::point(
+            crate::verif_hooks::c05::STMT,
+            std::panic::Location::caller().line(),
+        );
         self.conn
             .as_ref()
             .ok_or(OperationError::TransactionAlreadyCommitted)
@@ -709,8 +715,12 @@ impl IdlSqliteWriteTransaction {
         db_name: &'static str,
     ) -> Result<Self, OperationError> {
         // Start the transaction
+        #[cfg(feature = "verif-hooks")]
+        crate::verif_hooks::c05::point(crate::verif_hooks::c05::BEGIN_PRE, line!());
         conn.execute("BEGIN EXCLUSIVE TRANSACTION", [])
             .map_err(sqlite_error)?;
+        #[cfg(feature = "verif-hooks")]
+        crate::verif_hooks::c05::point(crate::verif_hooks::c05::BEGIN_POST, line!());
         Ok(IdlSqliteWriteTransaction {
             pool,
             conn: Some(conn),
@@ -726,12 +736,16 @@ impl IdlSqliteWriteTransaction {
         std::mem::swap(&mut dropping, &mut self.conn);
 
         if let Some(conn) = dropping {
+            #[cfg(feature = "verif-hooks")]
+            crate::verif_hooks::c05::point(crate::verif_hooks::c05::COMMIT_PRE, line!());
             conn.execute("COMMIT TRANSACTION", [])
                 .map(|_| ())
                 .map_err(|e| {
                     admin_error!(?e, "CRITICAL: failed to commit sqlite txn");
                     OperationError::BackendEngine
                 })?;
+            #[cfg(feature = "verif-hooks")]
+            crate::verif_hooks::c05::point(crate::verif_hooks::c05::COMMIT_POST, line!());
 
             self.pool
                 .lock()
